@@ -13,6 +13,7 @@ import (
 	"fmt"
 	"io"
 	"os"
+	"strings"
 	"sync"
 
 	"github.com/dolthub/dolt/go/store/blobstore"
@@ -21,6 +22,59 @@ import (
 )
 
 func init() { hk.Register("c42", Run) }
+
+// Run dispatches on the case kind and retries a case (up to 5 times) when the only thing that went wrong is
+// lock acquisition under load (fslock / flock timeouts), which is not an observation of the property.
+func Run(raw json.RawMessage) (any, error) {
+	var k struct {
+		Kind string `json:"kind"`
+	}
+	_ = json.Unmarshal(raw, &k)
+	var obs any
+	var err error
+	for try := 0; try < 5; try++ {
+		if k.Kind == "nbs" {
+			obs, err = runNbs(raw)
+		} else {
+			obs, err = runBlob(raw)
+		}
+		if !lockTrouble(obs, err) {
+			break
+		}
+	}
+	return obs, err
+}
+
+func isLockMsg(m string) bool {
+	m = strings.ToLower(m)
+	return strings.Contains(m, "could not acquire lock") || strings.Contains(m, "lock timeout exceeded") ||
+		strings.Contains(m, "flock") || strings.Contains(m, "resource temporarily unavailable")
+}
+
+func lockTrouble(obs any, err error) bool {
+	if err != nil {
+		return isLockMsg(err.Error())
+	}
+	switch o := obs.(type) {
+	case Obs:
+		for _, l := range [][]Res{o.Pre, o.Conc, o.Post} {
+			for _, r := range l {
+				if r.R == "err" && isLockMsg(r.Msg) {
+					return true
+				}
+			}
+		}
+	case NbsObs:
+		for _, l := range [][]NStep{o.BsInmem, o.BsLocal, o.Local} {
+			for _, r := range l {
+				if r.Res == 3 && isLockMsg(r.Err) {
+					return true
+				}
+			}
+		}
+	}
+	return false
+}
 
 type Op struct {
 	Op   string `json:"op"` // get | put | cap | cat
@@ -144,7 +198,7 @@ func doWrite(ctx context.Context, bs blobstore.Blobstore, o Op, exp string) (r R
 	return Res{R: "ver", Data: []int{}, verS: ver, hasVer: true, expS: exp}
 }
 
-func Run(raw json.RawMessage) (any, error) {
+func runBlob(raw json.RawMessage) (any, error) {
 	var c Case
 	if err := json.Unmarshal(raw, &c); err != nil {
 		return nil, err
